@@ -2,6 +2,8 @@
 #ifndef HEPSIM_RUNNER_IMPL_HPP
 #define HEPSIM_RUNNER_IMPL_HPP
 
+#include <functional>
+
 namespace sim
 {
 
@@ -74,23 +76,54 @@ void Runner<T, E>::run_impl(Plan const& p, std::vector<std::size_t> const& calls
         Ctx* const prev = current_ctx();
         current_ctx() = &c;
 
+        // a nesting integrand: on some calls the scripted integrand runs a small integration of the
+        // same kind and the same types itself (the library must be re-entrant)
+        std::function<void()> nested;
+        struct Hook
+        {
+            static void call(void* f) { (*static_cast<std::function<void()>*>(f))(); }
+        };
+
         try
         {
             if (integ_ == PLAIN)
             {
                 PI in(pf, p.dims, params);
+                PI inner(pf, p.dims, params);
+                nested = [&inner]() {
+                    E g(4711);
+                    (void) hep::plain_iteration(inner, 3, g);
+                };
+                c.nested_hook = &Hook::call;
+                c.nested_arg = &nested;
                 PChk r = hep::plain(in, calls, *pc_, SimCallback<PChk>(ctl));
                 *pc_ = std::move(r);
             }
             else if (integ_ == VEGAS)
             {
                 VI in(vf, p.dims, params);
+                VI inner(vf, p.dims, params);
+                hep::vegas_pdf<T> const inner_pdf(p.dims, p.bins);
+                nested = [&inner, &inner_pdf]() {
+                    E g(4711);
+                    (void) hep::vegas_iteration(inner, 3, inner_pdf, g);
+                };
+                c.nested_hook = &Hook::call;
+                c.nested_arg = &nested;
                 VChk r = hep::vegas(in, calls, *vc_, SimCallback<VChk>(ctl));
                 *vc_ = std::move(r);
             }
             else
             {
                 MI in(mf, p.dims, mm, p.mapd ? p.mapd : p.dims, p.chan, params);
+                MI inner(mf, p.dims, mm, p.mapd ? p.mapd : p.dims, p.chan, params);
+                std::vector<T> const inner_weights(p.chan, T(1) / T(p.chan));
+                nested = [&inner, &inner_weights]() {
+                    E g(4711);
+                    (void) hep::multi_channel_iteration(inner, 3, inner_weights, g);
+                };
+                c.nested_hook = &Hook::call;
+                c.nested_arg = &nested;
                 MChk r = hep::multi_channel(in, calls, *mc_, SimCallback<MChk>(ctl));
                 *mc_ = std::move(r);
             }
